@@ -122,6 +122,13 @@ class Run:
         orig_proc = self.store.is_message_processed
 
         def is_processed(mid):
+            if getattr(run, "lookup_fault", False):      # injected: the durable duplicate look-up itself fails
+                import sqlite3
+
+                run.lookup_fault = False
+                run._dedup_seen = True
+                run.emit({"e": "dedupfault"})
+                raise sqlite3.OperationalError("database is locked")
             r = orig_proc(mid)
             run._dedup_seen = True
             run.emit({"e": "dedup", "res": bool(r)})
@@ -206,8 +213,9 @@ class Run:
         return [r for r in self.rows() if not r["locked"] and not r["delayed"] and r["att"] < r["max"]]
 
     # -- steps ---------------------------------------------------------------------------------
-    def deliver(self, qid: int | None = None, ack: bool = True) -> bool:
+    def deliver(self, qid: int | None = None, ack: bool = True, lookup_fault: bool = False) -> bool:
         """poll_one + _handle_message + ack (or withheld ack / reschedule on failure)."""
+        self.lookup_fault = lookup_fault
         self.force_row = qid
         self.force_hit = False
         self._dedup_seen = False
